@@ -1,5 +1,7 @@
 pub mod c02;
 pub mod c03;
 pub mod c04;
+pub mod c08;
 pub mod c11;
 pub mod c12;
+pub mod c15;
